@@ -379,7 +379,8 @@ def r3_domain(P, rep, ctx):
             var = a.args[0].id
             g = ctx.cfg(fi)
             site = node_of(g, c)
-            tests = [t.idx for t in g.nodes if t.kind == "test" and norm(t.exprs[0]) in (f"isinstance({var}, self.__partial_fac__.partial_mixin)", f"isinstance({var}, PartialModel)", f"isinstance({var}, fac.partial_mixin)")]
+            ff = F(ctx, fi)
+            tests = [t for t, lab in ff.tests(f"isinstance({var}, self.__partial_fac__.partial_mixin)", f"isinstance({var}, PartialModel)", f"isinstance({var}, fac.partial_mixin)", f"isinstance({var}, cls.partial_mixin)")]
             ok = site is not None and any(g.edge_dominates(t, "F", site) for t in tests)
             rep.check(ok, "C14.R3", fi.qual, f"get_partial(type({var})) only when {var} is not already a partial instance", fi.loc(c), construct=norm(c),
                       message=f"get_partial(type({var})) is reachable for a value that already is a partial model (values of parsed partials are): partial-of-partial fails with an MRO TypeError")
